@@ -591,6 +591,7 @@ const HAND: &[(&str, &str)] = &[
 	("err", r#"null"#),
 	("err", r#"{"name":"x"}"#),
 	("any", r#"{"type":"record","name":"R","fields":[{"name":"a","type":"Later"},{"name":"b","type":{"type":"fixed","name":"Later","size":2}}]}"#),
+	("ok", r#"{"type":"record","name":"A","fields":[{"name":"b0","type":{"type":"record","name":"B","fields":[]}},{"name":"f0","type":"B"},{"name":"f1","type":"B"},{"name":"f2","type":"B"},{"name":"f3","type":"B"},{"name":"f4","type":"B"},{"name":"f5","type":"B"},{"name":"f6","type":"B"},{"name":"f7","type":"B"},{"name":"f8","type":"B"},{"name":"f9","type":"B"}]}"#),
 	("any", r#"[]"#),
 	("any", r#"{"type":"int","name":"Alias"}"#),
 	("any", r#"[{"type":"int","name":"Alias"},"Alias"]"#),
